@@ -5,6 +5,7 @@
 
 use bridge::{catch, CMode, CPat, Cfg};
 use refsem::evidence::{Run, Samples, Tier, ViolAcc, Violation};
+use refsem::model::ScanTable;
 use refsem::par::par_for;
 use scnr::{FindMatches, Scanner, ScannerModeSwitcher};
 use serde_json::{json, Map};
@@ -381,6 +382,58 @@ pub fn run(tier: Tier) -> ! {
         total.runs += acc.runs;
         total.viol.merge(acc.viol);
         fams.push(json!({"family": "one scanner reused for every input of {a,b,x}^<=4 with a partially consumed iterator and a peek in between", "inputs": ins.len()}));
+    }
+
+    // history independence against the reference: a fresh scanner scans x1, then x2 (and x2 again
+    // through a scanner from the cache that another scanner of the same configuration shares); the
+    // tokens of every scan must be the reference's, whatever was scanned first. Wide classes and
+    // the characters at the borders of the scalar range: anything remembered per class or per
+    // character between scans shows here.
+    {
+        let wide = vec![
+            Cfg::single(vec![CPat::new("[^a]", 0), CPat::new("a+", 1)]),
+            Cfg::single(vec![CPat::new("\\x00+", 0), CPat::new(".", 1)]),
+            Cfg::single(vec![CPat::new("[\\x00-\\x7f]+", 0), CPat::new("[^\\x00-\\x7f]", 1)]),
+            Cfg::single(vec![CPat::new("a", 0).with_la(false, "\\x00"), CPat::new("[\\x00é]", 1), CPat::new("a", 2)]),
+            Cfg { modes: vec![CMode { name: "A".into(), pats: vec![CPat::new("a", 0), CPat::new("[^aé]", 1)], transitions: vec![(1, 1)] }, CMode { name: "B".into(), pats: vec![CPat::new("[^é]+", 2), CPat::new("é", 1)], transitions: vec![(1, 0)] }] },
+        ];
+        let ins = refsem::families::inputs(&['\0', 'a', 'é', '\u{10ffff}'], if tier == Tier::Quick { 3 } else { 4 });
+        let tables = refsem::sem::AtomTables::default();
+        let mut scans = 0usize;
+        for cfg in &wide {
+            let spec = cfg.to_spec().expect("family configurations are in the modelled fragment");
+            let tabs: Vec<ScanTable> = ins.iter().map(|i| ScanTable::new(&spec, i, &tables)).collect();
+            let n = ins.len();
+            let accs = par_for(n, 1, || Acc::default(), |acc, i1| {
+                for i2 in 0..n {
+                    let Ok(sc) = cfg.build_uncached() else { return };
+                    let cached = if i2 % 7 == 0 { cfg.build_cached().ok() } else { None };
+                    let mut stats = crate::e2::ScanStats::default();
+                    for (which, k) in [("first", i1), ("second", i2)] {
+                        acc.runs += 1;
+                        if let Some(d) = crate::e2::lockstep(&sc, &spec, &tabs[k], &ins[k], None, 0, 1, &mut stats) {
+                            acc.viol.add("", || Violation { key: String::new(), summary: format!("{} : the {which} scan of one scanner (inputs {:?} then {:?}) disagrees with the reference on {:?}: {}", cfg.show(), ins[i1], ins[i2], ins[k], d.detail), replay: json!({"configuration": cfg.to_json(), "calls": ["build_uncached()", format!("find_iter({:?}) to exhaustion", ins[i1]), format!("find_iter({:?}) to exhaustion", ins[i2])], "input": ins[k], "disagreement": d.detail}) });
+                            return;
+                        }
+                    }
+                    if let Some(c) = cached {
+                        acc.runs += 1;
+                        if let Some(d) = crate::e2::lockstep(&c, &spec, &tabs[i2], &ins[i2], None, 0, 1, &mut stats) {
+                            acc.viol.add("", || Violation { key: String::new(), summary: format!("{} : a scanner from build() disagrees with the reference on {:?} after other scanners of the configuration scanned other inputs: {}", cfg.show(), ins[i2], d.detail), replay: json!({"configuration": cfg.to_json(), "calls": ["build() in a process where the configuration was built and used before", format!("find_iter({:?}) to exhaustion", ins[i2])], "input": ins[i2], "disagreement": d.detail}) });
+                            return;
+                        }
+                    }
+                    acc.nontrivial += 1;
+                }
+            });
+            for a in accs {
+                scans += a.runs;
+                total.runs += a.runs;
+                total.nontrivial += a.nontrivial;
+                total.viol.merge(a.viol);
+            }
+        }
+        fams.push(json!({"family": "history independence against the reference: fresh scanner, scan x1 then x2 for ALL ordered pairs of inputs over {U+0000, a, é, U+10FFFF}^<=3 (thorough 4), every scan compared in lockstep with the reference; every 7th pair also through build()", "configurations": wide.len(), "inputs": ins.len(), "scans_compared": scans, "exhaustive": true}));
     }
 
     let n_dis = total.viol.total();
